@@ -97,11 +97,29 @@ pub open spec fn dkp_candidate_spec(nh: nat, suite: Bytes, ikm: Bytes, counter: 
 
 verus!{
 // ---- RFC 5116 AEAD (uninterpreted; `enc` is the keyed AEAD instance) ----
+// `I` names the algorithm; an AEAD instance behaves as a function of the key it was created from
 pub uninterp spec fn aead_key_of<I: ?Sized>(enc: &I) -> Bytes;
 // Seal(key, nonce, aad, pt) -> Some((ct, tag)) | None (SealError)
-pub uninterp spec fn aead_seal_spec<I: ?Sized>(enc: &I, nonce: Bytes, aad: Bytes, pt: Bytes) -> Option<(Bytes, Bytes)>;
+pub uninterp spec fn aead_seal_spec<I: ?Sized>(key: Bytes, nonce: Bytes, aad: Bytes, pt: Bytes) -> Option<(Bytes, Bytes)>;
 // Open(key, nonce, aad, ct, tag) -> Some(pt) | None (OpenError)
-pub uninterp spec fn aead_open_spec<I: ?Sized>(enc: &I, nonce: Bytes, aad: Bytes, ct: Bytes, tag: Bytes) -> Option<Bytes>;
+pub uninterp spec fn aead_open_spec<I: ?Sized>(key: Bytes, nonce: Bytes, aad: Bytes, ct: Bytes, tag: Bytes) -> Option<Bytes>;
 // the caller's RNG as an infinite byte stream
 pub uninterp spec fn rng_stream<R: ?Sized>(r: &R) -> Bytes;
+}
+
+verus!{
+// ---- §5.2: the abstract Context<ROLE> state (key, base_nonce, seq, exporter_secret) plus what the
+// implementation adds: the latched message-limit flag and the suite id used by Export ----
+pub struct CtxView {
+    pub overflowed: bool,
+    pub seq: nat,
+    pub key: Bytes,
+    pub base_nonce: Bytes,
+    pub exporter_secret: Bytes,
+    pub suite_id: Bytes,
+}
+// state after one successful seal/open: seq+1, or the latch once seq 2^64-1 has been used
+pub open spec fn ctx_advance(v: CtxView) -> CtxView {
+    if v.seq >= 0xffff_ffff_ffff_ffff { CtxView { overflowed: true, ..v } } else { CtxView { seq: v.seq + 1, ..v } }
+}
 }
